@@ -29,7 +29,7 @@ ASSUMPTIONS = [
 ALPHABET = "device x type x casing x name; graph; registry; hardware list"
 BOUND = {"quick": "VMX singles, pairs, triples (thin), OVF <= 2/2/3, VBox <= 3 disks, PVS <= 5 devices",
          "thorough": "adds all VMX triples over a 6-position grid and OVF with 3 files"}
-EXPECT_OUTCOMES = ["vmx", "vmx-dict", "ovf", "vbox", "pvs", "vmx-encrypted", "ovf-interleaved", "xml-decl"]
+EXPECT_OUTCOMES = ["vmx", "vmx-dict", "ovf", "vbox", "pvs", "vmx-encrypted", "ovf-interleaved", "xml-decl", "ovf-ids", "handle-lifecycle"]
 
 BUSES = ["scsi", "sata", "ide", "nvme"]
 TYPES = [None, "scsi-hardDisk", "ata-hardDisk", "disk", "rawDisk", "cdrom-image", "cdrom-raw", "atapi-cdrom"]
@@ -41,7 +41,7 @@ SPECIAL_CHARS = ["\x0b", "\x0c", "\x1c", "\x1d", "\x1e", "\x85", "\u2028", "\u20
 
 
 def shards(tier):
-    out = [{"kind": "vmx1"}, {"kind": "vmx-chars"}, {"kind": "xml-decl"}, {"kind": "vmx-dict"}, {"kind": "vbox"}, {"kind": "pvs"}, {"kind": "vmx-encrypted"},
+    out = [{"kind": "vmx1"}, {"kind": "vmx-chars"}, {"kind": "xml-decl"}, {"kind": "ovf-ids"}, {"kind": "handle-lifecycle"}, {"kind": "vmx-dict"}, {"kind": "vbox"}, {"kind": "pvs"}, {"kind": "vmx-encrypted"},
            {"kind": "ovf-interleaved"}]
     out += [{"kind": "vmx2", "slice": [i, 8]} for i in range(8)]
     out += [{"kind": "vmx3", "slice": [i, 4], "full": tier != "quick"} for i in range(4)]
@@ -100,6 +100,17 @@ def run_shard(shard, ctx):
                     "twice": "a" + ch + "b" + ch + "scsi0:1.fileName = \"x.vmdk"}[where]
             run_case({"kind": "vmx", "devs": [[bus, 0, 0, typ, name], ["sata", 1, 1, None, "plain.vmdk"]], "casing": "camel",
                       "extras": 2}, ctx)
+    elif kind == "ovf-ids":
+        # disk and file ids with characters that are special to URL / path splitting, in both HostResource spellings and both
+        # id spaces; a second disk whose id is the part in front of the special character
+        for ch in OVF_ID_CHARS:
+            for form, target in itertools.product((0, 2), ("disk", "file")):
+                run_case({"kind": "ovf-ids", "ch": ch, "form": form, "target": target}, ctx)
+    elif kind == "handle-lifecycle":
+        # what the caller does with the handle after the object has been constructed is its own business
+        for entry, what, handle in itertools.product(("ovf", "vbox", "pvs"), ("close", "rewind-and-read", "overwrite", "seek-end"),
+                                                     ("text", "bytes")):
+            run_case({"kind": "handle-lifecycle", "entry": entry, "what": what, "handle": handle}, ctx)
     elif kind == "xml-decl":
         # the XML documents as text (the declaration's encoding is void for text) and as bytes in the declared encoding,
         # with non-ASCII disk names
@@ -192,6 +203,70 @@ def _do_vmx(case):
     got = _twice(VMX.parse(text).disks)
     exp = _vmx_expected([tuple(d) for d in devs])
     return got, exp, len(devs) > 1 or any(d[3] not in DISK_TYPES for d in devs)
+
+
+OVF_ID_CHARS = ["#", "?", ";", "&amp;", "%20", "%", "+", "@", "!", "..", ":", "=", ","]  # no "/": the HostResource path is split at slashes
+
+
+def _do_ovf_ids(case):
+    from dissect.hypervisor.descriptor.ovf import OVF
+
+    ch, form, target = case["ch"], case["form"], case["target"]
+    raw = ch.replace("&amp;", "&")
+    ns = f'xmlns="{NS_OVF}" xmlns:ovf="{NS_OVF}" xmlns:rasd="{NS_RASD}"'
+    ida, idb = "vm" + ch + "disk1", "vm"  # the second id is what is left when the first is cut at the special character
+    fa, fb = "file" + ch + "1", "file"
+    res = ("ovf:" if form == 0 else "") + ("/disk/" + ida if target == "disk" else "/file/" + fa)
+    text = (f'<?xml version="1.0"?><Envelope {ns}><References><File ovf:id="{fa}" ovf:href="right.vmdk"/>'
+            f'<File ovf:id="{fb}" ovf:href="wrong.vmdk"/></References><DiskSection><Info>i</Info>'
+            f'<Disk ovf:diskId="{ida}" ovf:fileRef="{fa}"/><Disk ovf:diskId="{idb}" ovf:fileRef="{fb}"/></DiskSection>'
+            f'<VirtualSystem ovf:id="vm"><VirtualHardwareSection><Item><rasd:HostResource>{res}</rasd:HostResource>'
+            f'<rasd:ResourceType>17</rasd:ResourceType></Item></VirtualHardwareSection></VirtualSystem></Envelope>')
+    got = _twice(OVF(io.StringIO(text)).disks)
+    return got, ["right.vmdk"], True
+
+
+def _do_handle_lifecycle(case):
+    from dissect.hypervisor.descriptor.ovf import OVF
+    from dissect.hypervisor.descriptor.pvs import PVS
+    from dissect.hypervisor.descriptor.vbox import VBox
+
+    entry, what, handle = case["entry"], case["what"], case["handle"]
+
+    def doc(tag):
+        if entry == "ovf":
+            ns = f'xmlns="{NS_OVF}" xmlns:ovf="{NS_OVF}" xmlns:rasd="{NS_RASD}"'
+            return (f'<Envelope {ns}><References><File ovf:id="file1" ovf:href="{tag}.vmdk"/></References><DiskSection><Info>i</Info>'
+                    f'<Disk ovf:diskId="vmdisk1" ovf:fileRef="file1"/></DiskSection><VirtualSystem ovf:id="vm"><VirtualHardwareSection>'
+                    f'<Item><rasd:HostResource>ovf:/disk/vmdisk1</rasd:HostResource><rasd:ResourceType>17</rasd:ResourceType></Item>'
+                    f'</VirtualHardwareSection></VirtualSystem></Envelope>'), [f"{tag}.vmdk"]
+        if entry == "vbox":
+            return (f'<VirtualBox xmlns="http://www.virtualbox.org/" version="1.16-linux"><Machine><MediaRegistry><HardDisks>'
+                    f'<HardDisk uuid="{{1}}" location="{tag}.vdi" format="VDI" type="Normal"/></HardDisks></MediaRegistry></Machine>'
+                    f'</VirtualBox>'), [f"{tag}.vdi"]
+        return (f'<ParallelsVirtualMachine schemaVersion="1.0"><Hardware><Hdd id="0"><Index>0</Index><SystemName>{tag}.hdd</SystemName>'
+                f'</Hdd></Hardware></ParallelsVirtualMachine>'), [f"{tag}.hdd"]
+
+    cls = {"ovf": OVF, "vbox": VBox, "pvs": PVS}[entry]
+    text, exp = doc("first")
+    other, _ = doc("second-machine")
+    fh = io.StringIO(text) if handle == "text" else io.BytesIO(text.encode())
+    obj = cls(fh)
+    if what == "close":
+        fh.close()
+    elif what == "rewind-and-read":
+        fh.seek(0)
+        fh.read()
+        fh.seek(0)
+    elif what == "seek-end":
+        fh.seek(0, 2)
+    else:
+        fh.seek(0)
+        fh.truncate()
+        fh.write(other if handle == "text" else other.encode())
+        fh.seek(0)
+    got = _twice(obj.disks)
+    return got, exp, True
 
 
 def _do_xml_decl(case):
